@@ -16,7 +16,7 @@
    membership are not contiguous with the new ones).
    Statements only. *)
 From Coq Require Import NArith List Bool.
-From MlsV Require Import TreeMathProofs Priv PrivProofs Join JoinProofs.
+From MlsV Require Import TreeMathProofs Priv PrivProofs Join JoinProofs WelcomeGen WelcomeGenProofs.
 Import ListNotations.
 Local Open Scope N_scope.
 
@@ -46,6 +46,23 @@ Theorem C07_joiner_keys_match_the_tree : forall ks me leafkey jflt lca pr,
   ks (2 * me) = Some leafkey -> join_priv ks me leafkey jflt lca = Some pr -> PrivOK ks me pr.
 Proof. exact privok_join. Qed.
 
+(* the joiner-side bookkeeping TRANSLATED from the source on every run: which path secret the committer
+   hands over (Group::encrypt_group_secrets, passed on unconditionally by commit_internal), which key package
+   opens the Welcome (find_key_package_generation) and when it is deleted (from_welcome_message ->
+   GroupStateRepository::new -> write_to_storage) *)
+Theorem C07_translated_welcome_bookkeeping_is_the_model : forall s r lr l,
+  gen_joiner_secret_position l = joiner_secret_position l /\ gen_k_join s [r] lr = k_join s r lr /\
+  kps (gen_k_write s) = kps (k_write s) /\ kps (gen_k_write (gen_k_write s)) = kps (gen_k_write s).
+Proof. exact translated_welcome. Qed.
+
+Theorem C07_welcome_for_several_packages_uses_the_first_one_in_the_store : forall s refs last_resort r,
+  find (fun x => has x (kps s)) refs = Some r -> gen_k_join s refs last_resort = k_join s r last_resort.
+Proof. exact gen_k_join_first. Qed.
+
+Theorem C07_welcome_for_no_package_of_the_store_gives_no_group : forall s refs last_resort,
+  (forall r, In r refs -> has r (kps s) = false) -> gen_k_join s refs last_resort = None.
+Proof. exact gen_k_join_none. Qed.
+
 Print Assumptions C07_used_package_is_deleted_by_the_first_write.
 Print Assumptions C07_last_resort_package_is_kept.
 Print Assumptions C07_unknown_package_cannot_join.
@@ -53,3 +70,6 @@ Print Assumptions C07_package_is_single_use.
 Print Assumptions C07_nothing_deleted_before_the_write.
 Print Assumptions C07_joiner_secret_at_common_ancestor.
 Print Assumptions C07_joiner_keys_match_the_tree.
+Print Assumptions C07_translated_welcome_bookkeeping_is_the_model.
+Print Assumptions C07_welcome_for_several_packages_uses_the_first_one_in_the_store.
+Print Assumptions C07_welcome_for_no_package_of_the_store_gives_no_group.
